@@ -119,6 +119,7 @@ func init() {
 		fr.i.reverseMaps = args[0].(bool)
 		return nil
 	})
+	reg(harnessPkg+".vpNativeOnly", "ignored by the engine (decided by the native replay only)", func(fr *frame, args []value) value { return nil })
 	reg(harnessPkg+".vpSteps", "SSA instructions executed on this path so far", func(fr *frame, args []value) value {
 		return int64(fr.i.ps.steps)
 	})
